@@ -496,7 +496,7 @@ theorem rsInit_ok (c : Chan PS) (idx sub : Nat) (v : Bytes) (hidx : idx < 65536)
       have hrr := rr_one c _ _ _ _ _ hstep rfl a1
       rw [hrr]
       have hpl : (padTo 4 v).length = 4 := padTo_len 4 v hexp.2.2
-      simp only [List.length_cons, List.length_append, hpl, List.length_nil, List.headD_cons,
+      simp only [rsInitDecode, List.length_cons, List.length_append, hpl, List.length_nil, List.headD_cons,
         show ¬ (1 + 1 + 1 + 4 + 1 < 4) from by omega, if_false, a2, ne_eq, not_true_eq_false, a3,
         not_false_eq_true, if_true, a4, a5, List.getD_cons_succ, List.getD_cons_zero, hmux, hsub',
         List.cons_append, List.nil_append, List.drop_succ_cons, List.drop_zero, not_or, and_self,
@@ -510,7 +510,7 @@ theorem rsInit_ok (c : Chan PS) (idx sub : Nat) (v : Bytes) (hidx : idx < 65536)
       have hrr := rr_one c _ _ _ _ _ hstep rfl a1
       rw [hrr]
       have hpl : (padTo 4 v).length = 4 := padTo_len 4 v hexp.2.2
-      simp only [List.length_cons, List.length_append, hpl, List.length_nil, List.headD_cons,
+      simp only [rsInitDecode, List.length_cons, List.length_append, hpl, List.length_nil, List.headD_cons,
         show ¬ (1 + 1 + 1 + 4 + 1 < 4) from by omega, if_false, a2, ne_eq, not_true_eq_false, a3,
         not_false_eq_true, if_true, a4, List.getD_cons_succ, List.getD_cons_zero, hmux, hsub',
         List.cons_append, List.nil_append, List.drop_succ_cons, List.drop_zero, not_or, and_self,
@@ -526,7 +526,7 @@ theorem rsInit_ok (c : Chan PS) (idx sub : Nat) (v : Bytes) (hidx : idx < 65536)
       rw [hrr]
       have hv : leVal (leBytes 4 v.length) = v.length := by
         rw [leVal_leBytes]; exact Nat.mod_eq_of_lt (by simpa using hlen)
-      simp only [List.length_cons, List.length_append, leBytes_length, List.length_nil, List.headD_cons,
+      simp only [rsInitDecode, List.length_cons, List.length_append, leBytes_length, List.length_nil, List.headD_cons,
         show ¬ (1 + 1 + 1 + 4 + 1 < 4) from by omega, if_false, a2, ne_eq, not_true_eq_false, a3,
         not_false_eq_true, if_true, a4, List.getD_cons_succ, List.getD_cons_zero, hmux, hsub',
         List.cons_append, List.nil_append, List.drop_succ_cons, List.drop_zero, not_or, and_self,
@@ -537,7 +537,7 @@ theorem rsInit_ok (c : Chan PS) (idx sub : Nat) (v : Bytes) (hidx : idx < 65536)
       obtain ⟨a1, a2, a3, a4⟩ := u4
       have hrr := rr_one c _ _ _ _ _ hstep rfl a1
       rw [hrr]
-      simp only [List.length_cons, List.length_append, List.length_nil, List.headD_cons,
+      simp only [rsInitDecode, List.length_cons, List.length_append, List.length_nil, List.headD_cons,
         show ¬ (1 + 1 + 1 + (0 + 1 + 1 + 1 + 1) + 1 < 4) from by omega, if_false, a2, ne_eq, not_true_eq_false, a3,
         not_false_eq_true, if_true, a4, List.getD_cons_succ, List.getD_cons_zero, hmux, hsub',
         List.cons_append, List.nil_append, not_or, and_self]
@@ -586,15 +586,15 @@ theorem rsRead_seg (c : Chan PS) (s : RS) (rest : Bytes) (tg : Bool) (cuts : Lis
   have hrr := rr_one c _ _ _ _ _ hstep rfl a1
   simp only [rsRead, hnd, Bool.false_eq_true, if_false, hexp, htg]
   rw [hrr]
-  simp only [List.headD_cons, a2, ne_eq, not_true_eq_false, if_false, a3, a4, List.drop_succ_cons,
+  simp only [rsReadDecode, List.headD_cons, a2, ne_eq, not_true_eq_false, if_false, a3, a4, List.drop_succ_cons,
     List.drop_zero, padTo_take', tb_xor, Bool.false_or]
   cases hE : (rest.drop (clampCut (cuts.headD 7))).isEmpty
   · rw [hE] at a5
     have hP : cmd &&& NO_MORE_DATA = 0 := by simpa using a5
-    simp [hP]
+    simp [hP, htg, hnd, hexp, tb_xor]
   · rw [hE] at a5
     have hP : ¬ (cmd &&& NO_MORE_DATA = 0) := by simpa using a5
-    simp [hP]
+    simp [hP, htg, hnd, hexp, tb_xor]
 
 /-- `readall()` over a segmented upload: the concatenation of the segments is the held value -/
 theorem rsReadAll_seg (v : Bytes) :
